@@ -297,7 +297,22 @@ func (b *inputBuilder) goValue(v *Term, t types.Type, depth int) (string, bool) 
 			es = append(es, e)
 		}
 		return fmt.Sprintf("%s{%s}", b.typeStr(t), strings.Join(es, ", ")), all
-	case *types.Interface, *types.Signature, *types.Map, *types.Chan:
+	case *types.Signature:
+		// a do-nothing function value (the callback is arbitrary caller code)
+		var ps, rs, zs []string
+		for i := 0; i < u.Params().Len(); i++ {
+			pt := b.typeStr(u.Params().At(i).Type())
+			if u.Variadic() && i == u.Params().Len()-1 {
+				pt = "..." + b.typeStr(u.Params().At(i).Type().(*types.Slice).Elem())
+			}
+			ps = append(ps, fmt.Sprintf("a%d %s", i, pt))
+		}
+		for i := 0; i < u.Results().Len(); i++ {
+			rs = append(rs, fmt.Sprintf("r%d %s", i, b.typeStr(u.Results().At(i).Type())))
+		}
+		_ = zs
+		return fmt.Sprintf("%s(func(%s) (%s) { return })", b.typeStr(t), strings.Join(ps, ", "), strings.Join(rs, ", ")), true
+	case *types.Interface, *types.Map, *types.Chan:
 		b.partial = append(b.partial, "value of "+t.String()+" left nil")
 		return "nil", true
 	}
@@ -495,8 +510,19 @@ func (x *Exec) buildReplay(prop string, o *Obligation, work string, timeout int)
 		for _, r := range fr.contract.Replay {
 			body.WriteString(r + "\n")
 		}
+		for _, rq := range fr.contract.Requires {
+			if e, olds, ok := clauseToGo(rq.Text); ok && len(olds) == 0 {
+				fmt.Fprintf(&body, "if !(%s) { verifT.Skipf(\"VERIF-REPLAY-INVALID: constructed inputs do not satisfy requires %%s\", %q) }\n", e, rq.Text)
+			}
+		}
 		for _, oc := range fr.contract.Olds {
 			fmt.Fprintf(&body, "%s := %s\n_ = %s\n", oc.Ghost, oc.Text, oc.Ghost)
+		}
+	}
+	nilPartial := false
+	for _, p := range b.partial {
+		if strings.Contains(p, "left nil") || strings.Contains(p, "left zero") {
+			nilPartial = true
 		}
 	}
 	// which clause to evaluate
@@ -536,7 +562,9 @@ func (x *Exec) buildReplay(prop string, o *Obligation, work string, timeout int)
 	}
 	body.WriteString("verifPanicked = false\n}()\n")
 	mayPanic := fr.contract != nil && fr.contract.MayPanic
-	if !mayPanic {
+	if nilPartial {
+		body.WriteString("if verifPanicked { verifT.Skipf(\"VERIF-REPLAY-INCONCLUSIVE: panic with partially constructed inputs: %v\", verifPanicVal) }\n")
+	} else if !mayPanic {
 		body.WriteString("if verifPanicked { verifT.Fatalf(\"VERIF-REPLAY-VIOLATED: the real function panicked: %v\", verifPanicVal) }\n")
 	} else {
 		body.WriteString("if verifPanicked { verifT.Logf(\"panicked (allowed by contract): %v\", verifPanicVal); return }\n")
